@@ -6,6 +6,25 @@ mod core;
 mod uni;
 mod h;
 mod c01;
+mod c02;
+mod c03;
+mod c04;
+mod c05;
+mod c06;
+mod c07;
+mod c08;
+mod c09;
+mod c10;
+mod c11;
+mod c12;
+mod c13;
+mod c14;
+mod c15;
+mod c16;
+mod c17;
+mod c18;
+mod c19;
+mod c20;
 
 #[global_allocator]
 static GLOBAL: alloc::Tracking = alloc::Tracking;
@@ -15,7 +34,7 @@ use crate::core::{Ctx, Mode, Tier};
 type CheckFn = fn(&mut Ctx);
 
 fn registry() -> Vec<(&'static str, CheckFn)> {
-    vec![("C01", c01::run as CheckFn)]
+    vec![("C01", c01::run as CheckFn), ("C02", c02::run as CheckFn), ("C03", c03::run as CheckFn), ("C04", c04::run as CheckFn), ("C05", c05::run as CheckFn), ("C06", c06::run as CheckFn), ("C07", c07::run as CheckFn), ("C08", c08::run as CheckFn), ("C09", c09::run as CheckFn), ("C10", c10::run as CheckFn), ("C11", c11::run as CheckFn), ("C12", c12::run as CheckFn), ("C13", c13::run as CheckFn), ("C14", c14::run as CheckFn), ("C15", c15::run as CheckFn), ("C16", c16::run as CheckFn), ("C17", c17::run as CheckFn), ("C18", c18::run as CheckFn), ("C19", c19::run as CheckFn), ("C20", c20::run as CheckFn)]
 }
 
 fn usage() -> ! {
